@@ -613,6 +613,50 @@ func (h *harness) genCase(r *hx.Rng) {
 	h.do(fmt.Sprintf("reset full=%s", b01(full)))
 	steps := 6 + r.Intn(22)
 	lowStart := r.Chance(25) // a share of the cases stays around height 0 (the Height != 0 special case)
+	via := func() string {
+		if r.Chance(40) {
+			return "r"
+		}
+		return "c"
+	}
+	// scripted openings that reach the deep states random walks rarely hit; the random walk continues from there
+	switch t := r.Intn(12); t {
+	case 0, 1: // a decided message for a past height (started-but-undecided height above it), restart, the height again
+		lo := r.Intn(maxH - 3)
+		if lowStart {
+			lo = 0
+		}
+		hi := lo + 1 + r.Intn(3)
+		h.run.Tag("script:late-decided-restart")
+		h.do(fmt.Sprintf("start %d", hi))
+		h.do(fmt.Sprintf("decided h=%d r=1 root=%d s=%s ok=1 via=%s", lo, 100+2*lo, signersOut(subsets[r.Intn(len(subsets))]), via()))
+		h.do(fmt.Sprintf("restart full=%s reopen=%s", b01(full), b01(r.Chance(20))))
+		if t == 0 {
+			h.do(fmt.Sprintf("begin %d", lo))
+		}
+		h.do(fmt.Sprintf("decided h=%d r=%d root=%d s=%s ok=1 via=%s", lo, 1+r.Intn(2), 100+2*lo, signersOut(subsets[r.Intn(len(subsets))]), via()))
+		if t == 0 {
+			h.do("decide")
+		} else {
+			h.do(fmt.Sprintf("start %d", lo))
+		}
+	case 2, 3: // certificates of several rounds for one height, compaction or restart in between
+		ht := 1 + r.Intn(maxH-1)
+		h.run.Tag("script:multi-round-certs")
+		if r.Bool() {
+			h.do(fmt.Sprintf("start %d", ht))
+		}
+		v := via()
+		h.do(fmt.Sprintf("decided h=%d r=%d root=%d s=%s ok=1 via=%s", ht, 2+r.Intn(2), 100+2*ht, signersOut(subsets[r.Intn(len(subsets))]), v))
+		h.do(fmt.Sprintf("decided h=%d r=1 root=%d s=1.2.3.4 ok=1 via=%s", ht, 100+2*ht, v))
+		switch r.Intn(3) {
+		case 0:
+			h.do(fmt.Sprintf("compact %d", ht))
+		case 1:
+			h.do(fmt.Sprintf("restart full=%s reopen=%s", b01(full), b01(r.Chance(20))))
+		}
+		h.do(fmt.Sprintf("decided h=%d r=%d root=%d s=%s ok=1 via=%s", ht, 1+r.Intn(2), 100+2*ht, signersOut(subsets[r.Intn(4)]), v))
+	}
 	for i := 0; i < steps; i++ {
 		cur := int(h.n.ctrl.Height)
 		near := func() int {
@@ -642,11 +686,7 @@ func (h *harness) genCase(r *hx.Rng) {
 			if r.Chance(5) {
 				ok = 0
 			}
-			via := "c"
-			if r.Chance(40) {
-				via = "r"
-			}
-			h.do(fmt.Sprintf("decided h=%d r=%d root=%d s=%s ok=%d via=%s", ht, 1+r.Intn(3), root, signersOut(sg), ok, via))
+			h.do(fmt.Sprintf("decided h=%d r=%d root=%d s=%s ok=%d via=%s", ht, 1+r.Intn(3), root, signersOut(sg), ok, via()))
 		case c < 87:
 			h.do(fmt.Sprintf("compact %d", near()))
 		default:
